@@ -52,6 +52,8 @@ structure RWCfg where
   skipInstanceSkipsComments : Bool
   /-- `ReadInstance` reports an instance that is not followed by `;` (or ENDSEC) instead of swallowing the next character -/
   missingSemicolonReported : Bool
+  /-- lenient mode substitutes a filler only for an explicit `$`, not for a parameter that is missing altogether -/
+  fillerOnlyForDollar : Bool
   /-- `ReadInstance` hands the severity of a complex instance to `AppendEntityErrorMsg` (as it does for simple ones) -/
   complexReportsError : Bool
 deriving Repr, DecidableEq, Inhabited
@@ -449,7 +451,7 @@ def attrSTEPread {F} (env : Env F) (strict : Bool) (a : AttrD) (s : IStream) : M
     let (s3, e) : IStream × Sev :=
       if c == 36 then checkRemainingInput env.lex (some attrDelims) s2.ignore1 .null else (s2, .null)
     if a.optional then pure (if env.lex.dollarKeepsError then e else .null, nullOf a, s3)
-    else if strict then pure (.incomplete, nullOf a, s3)
+    else if strict || (env.cfg.fillerOnlyForDollar && c != 36) then pure (.incomplete, nullOf a, s3)
     else
       match a.ty with
       | .one .integer => pure (fillerValue env.ops .integer s3)
